@@ -13,6 +13,9 @@ META = {
     "level": "Decides: (R1) the variable domains partition the flags: inside IUSE forced-on gets (True,), forced-off (False,), preferred a two-valued domain whose LAST element is True, all other flags a two-valued domain whose last element is False (the solver pops the last value first), and every flag outside IUSE gets (False,); (R2) every REQUIRED_USE node class has its own constraint constructor, fed with that node's negate flag (for conditionals: the condition's own negate and flags), and unknown nodes raise; (R3) the six closures compute any/all/exactly-one/at-most-one/implication xor negate; (R4) the solver entry point does not mutate the sets it is given. Does NOT decide the backtracking solver itself (snakeoil, trusted base).",
     "note": "library fact: snakeoil.constraints.Problem tries a variable's LAST listed value first; contradictory inputs (a flag both forced on and off) are outside the property",
 }
+META["technique"] += "; " + 'region table also for a flag->domain map filled by successive updates (last write wins); generator-function rule'
+META["level"] += " Added after the second round of independent changes: " + '(R1) also when the domains are collected in a map with override semantics; (R4) find_constraint_satisfaction is an ordinary function (arguments read at call time) and writes to none of its arguments.'
+META["technique"] += "; " + 'generic pack G on the anchored files (optional-flag shift, closures outliving a loop iteration, single-pass iterables consumed twice, %-templates built from data, in-place writes to class-level / memoised objects, generators mutating what they yielded, memo keys that are projections)'
 
 REGION_KEYS = ("iuse", "force_true", "force_false", "prefer_true")
 
